@@ -359,13 +359,47 @@ pub fn gen_jxl(rng: &mut Rng, existing: Option<&Store>) -> Asset {
         b.extend_from_slice(c);
         desc.push_str("+cai@ftyp");
     }
+    // any box may use the 64-bit `largesize` header form (size field = 1)
+    let mut large_used = false;
+    let mut boxl = |rng: &mut Rng, ty: &[u8; 4], body: &[u8]| -> Vec<u8> {
+        if rng.chance(1, 3) {
+            large_used = true;
+            let mut v = 1u32.to_be_bytes().to_vec();
+            v.extend_from_slice(ty);
+            v.extend_from_slice(&((body.len() + 16) as u64).to_be_bytes());
+            v.extend_from_slice(body);
+            v
+        } else {
+            iso_box(ty, body)
+        }
+    };
     if rng.chance(1, 3) {
-        b.extend_from_slice(&iso_box(b"Exif", &[0, 0, 0, 0, 0x4d, 0x4d, 0, 0x2a, 0, 0, 0, 8, 0, 0]));
+        b.extend_from_slice(&boxl(rng, b"Exif", &[0, 0, 0, 0, 0x4d, 0x4d, 0, 0x2a, 0, 0, 0, 8, 0, 0]));
         desc.push_str("+exif");
     }
     if rng.chance(1, 3) {
-        b.extend_from_slice(&iso_box(b"xml ", &xmp_packet(rng)));
+        let x = xmp_packet(rng);
+        b.extend_from_slice(&boxl(rng, b"xml ", &x));
         desc.push_str("+xmp");
+    }
+    if rng.chance(1, 4) {
+        let k = rng.range(1, 40) as usize;
+        let body = rng.bytes(k);
+        b.extend_from_slice(&boxl(rng, b"jbrd", &body));
+        desc.push_str("+jbrd");
+    }
+    if rng.chance(1, 4) {
+        // brotli-compressed metadata box (opaque here): original type + compressed bytes
+        let mut body = b"Exif".to_vec();
+        body.extend_from_slice(&rng.bytes(rng.clone().range(4, 30) as usize));
+        b.extend_from_slice(&boxl(rng, b"brob", &body));
+        desc.push_str("+brob");
+    }
+    if rng.chance(1, 4) {
+        let k = rng.below(20) as usize;
+        let body = rng.bytes(k);
+        b.extend_from_slice(&boxl(rng, b"abcd", &body));
+        desc.push_str("+unknown");
     }
     if let (Some(c), 1) = (&c2pa, place) {
         b.extend_from_slice(c);
@@ -373,21 +407,45 @@ pub fn gen_jxl(rng: &mut Rng, existing: Option<&Store>) -> Asset {
     }
     let mut cs = vec![0xff, 0x0a];
     cs.extend_from_slice(&rng.bytes(rng.clone().range(4, 80) as usize));
+    // the last box may have size 0 ("extends to the end of the file")
+    let open_last = place != 2 && rng.chance(1, 4);
+    let mut last = |rng: &mut Rng, ty: &[u8; 4], body: &[u8]| -> Vec<u8> {
+        if open_last {
+            let mut v = 0u32.to_be_bytes().to_vec();
+            v.extend_from_slice(ty);
+            v.extend_from_slice(body);
+            v
+        } else {
+            boxl(rng, ty, body)
+        }
+    };
     if rng.chance(1, 3) {
         let half = cs.len() / 2;
         let mut p0 = vec![0, 0, 0, 0];
         p0.extend_from_slice(&cs[..half]);
         let mut p1 = vec![0x80, 0, 0, 1];
         p1.extend_from_slice(&cs[half..]);
-        b.extend_from_slice(&iso_box(b"jxlp", &p0));
-        b.extend_from_slice(&iso_box(b"jxlp", &p1));
+        let first = last(rng, b"jxlp", &p0);
+        // only the final box may be open-ended
+        if open_last {
+            b.extend_from_slice(&iso_box(b"jxlp", &p0));
+        } else {
+            b.extend_from_slice(&first);
+        }
+        b.extend_from_slice(&last(rng, b"jxlp", &p1));
         desc.push_str("+jxlp");
     } else {
-        b.extend_from_slice(&iso_box(b"jxlc", &cs));
+        b.extend_from_slice(&last(rng, b"jxlc", &cs));
+    }
+    if open_last {
+        desc.push_str("+size0");
     }
     if let (Some(c), 2) = (&c2pa, place) {
         b.extend_from_slice(c);
         desc.push_str("+cai@end");
+    }
+    if large_used {
+        desc.push_str("+largesize");
     }
     Asset { family: Family::Jxl, fmt: "jxl", bytes: b, desc, existing: existing.cloned() }
 }
